@@ -1,6 +1,7 @@
 package mon
 
 import (
+	"os"
 	"encoding/json"
 	"fmt"
 	"math/rand"
@@ -16,6 +17,8 @@ import (
 )
 
 func init() { Monitors["C20"] = runC20 }
+
+var verboseC20 = os.Getenv("VERIF_VERBOSE") != ""
 
 // FuzzTarget is one entry point exercised with arbitrary input; it must return
 // normally.  The same functions back the native `go test -fuzz` targets.
@@ -101,7 +104,10 @@ func FuzzTargets() []FuzzTarget {
 				return
 			}
 			gnmidiff.DiffSetRequest(a, b, cfg.Schema())
-			gnmidiff.DiffSetRequest(a, b, nil)
+			_, e2 := gnmidiff.DiffSetRequest(a, b, nil)
+			if verboseC20 {
+				fmt.Println("C20 DiffSetRequest nil-schema err:", e2)
+			}
 		}},
 		{"DiffSetRequestToNotifications", func(cfg *lib.Cfg, data []byte) {
 			ab, nb, ok := splitPair(data)
@@ -330,6 +336,10 @@ func mutateTV(tv *gpb.TypedValue, rng *rand.Rand) string {
 		{"json-garbage", &gpb.TypedValue{Value: &gpb.TypedValue_JsonIetfVal{JsonIetfVal: []byte(`{"a":[{}]`)}}},
 		{"json-null", &gpb.TypedValue{Value: &gpb.TypedValue_JsonIetfVal{JsonIetfVal: []byte(`null`)}}},
 		{"json-array", &gpb.TypedValue{Value: &gpb.TypedValue_JsonIetfVal{JsonIetfVal: []byte(`[1,"a",{}]`)}}},
+		{"json-array-nested-array", &gpb.TypedValue{Value: &gpb.TypedValue_JsonIetfVal{JsonIetfVal: []byte(`["x",["y"]]`)}}},
+		{"json-array-nested-object", &gpb.TypedValue{Value: &gpb.TypedValue_JsonIetfVal{JsonIetfVal: []byte(`["x",{"k":1}]`)}}},
+		{"json-object-nested-arrays", &gpb.TypedValue{Value: &gpb.TypedValue_JsonIetfVal{JsonIetfVal: []byte(`{"c":[1,[2,3]],"d":{"e":[[1],[2]]}}`)}}},
+		{"leaflist-nested", &gpb.TypedValue{Value: &gpb.TypedValue_LeaflistVal{LeaflistVal: &gpb.ScalarArray{Element: []*gpb.TypedValue{{Value: &gpb.TypedValue_StringVal{StringVal: "x"}}, {Value: &gpb.TypedValue_LeaflistVal{LeaflistVal: &gpb.ScalarArray{Element: []*gpb.TypedValue{{Value: &gpb.TypedValue_IntVal{IntVal: 1}}}}}}}}}}},
 		{"json-val", &gpb.TypedValue{Value: &gpb.TypedValue_JsonVal{JsonVal: []byte(`{"x":1}`)}}},
 		{"leaflist-nil-elems", &gpb.TypedValue{Value: &gpb.TypedValue_LeaflistVal{LeaflistVal: &gpb.ScalarArray{Element: []*gpb.TypedValue{nil, {}}}}}},
 		{"leaflist-nil", &gpb.TypedValue{Value: &gpb.TypedValue_LeaflistVal{}}},
@@ -489,23 +499,35 @@ func runC20(r *lib.Run) {
 						run(tg, []byte(s), what)
 					}
 				case "DiffSetRequest", "DiffSetRequestToNotifications":
-					for k := 0; k < 5; k++ {
+					for k := 0; k < 12; k++ {
 						ra := proto.Clone(req).(*gpb.SetRequest)
 						rb := proto.Clone(req).(*gpb.SetRequest)
+						if k >= 6 {
+							// without the delete of the replaced node: gnmidiff refuses that combination
+							// ("conflicting replaces") before looking at anything else
+							ra.Delete, rb.Delete = nil, nil
+						}
 						what := "seed"
 						all := append(append([]*gpb.Update{}, ra.Update...), ra.Replace...)
 						switch {
-						case k == 1 && len(ra.Update) > 0:
+						case k%6 == 1 && len(ra.Update) > 0:
 							ra.Update = append(ra.Update, ra.Update...)
 							ra.Delete, ra.Replace = nil, nil
 							what = "repeated-updates"
-						case k == 2 && len(all) > 0:
+						case k%6 == 2 && len(all) > 0:
 							what = mutatePath(all[rng.Intn(len(all))].Path, rng)
-						case k == 3 && len(all) > 0:
+						case k%6 == 3 && len(all) > 0:
 							what = mutateTV(all[rng.Intn(len(all))].Val, rng)
-						case k == 4:
+						case k%6 == 4:
 							ra.Delete = append(ra.Delete, &gpb.Path{}, nil)
 							what = "empty-and-nil-delete"
+						case k%6 == 5 && len(all) > 0:
+							// the same malformed value on both sides (and twice on one side)
+							j := rng.Intn(len(all))
+							what = "both-sides:" + mutateTV(all[j].Val, rng)
+							allB := append(append([]*gpb.Update{}, rb.Update...), rb.Replace...)
+							allB[j].Val = proto.Clone(all[j].Val).(*gpb.TypedValue)
+							ra.Update = append(ra.Update, proto.Clone(all[j]).(*gpb.Update))
 						}
 						ab, _ := proto.Marshal(ra)
 						var bb []byte
